@@ -24,7 +24,7 @@ k=${PART%%/*}; n=${PART##*/}; k=${k:-0}; n=${n:-1}
 part=/verif/seeded/RESULTS.part$k.tmp
 : > $part
 i=0
-for d in /verif/seeded/C*-m*/ /verif/seeded/C*-r2m*/ /verif/seeded/C*-r3m*/ /verif/seeded/C*-r4m*/ /verif/seeded/C*-r5m*/ /verif/seeded/C*-r6m*/; do
+for d in /verif/seeded/C*-m*/ /verif/seeded/C*-r2m*/ /verif/seeded/C*-r3m*/ /verif/seeded/C*-r4m*/ /verif/seeded/C*-r5m*/ /verif/seeded/C*-r6m*/ /verif/seeded/C*-r7m*/; do
   i=$((i+1))
   [ $((i % n)) -eq $k ] || continue
   name=$(basename $d); id=${name%%-*}
